@@ -366,7 +366,7 @@ func readFiles(dir string) (fs []file, anomalies []string) {
 		}
 		if strings.HasSuffix(n, ".zoekt.meta") {
 			if !have[strings.TrimSuffix(n, ".meta")] {
-				anomalies = append(anomalies, "orphan-meta")
+				anomalies = append(anomalies, "orphan-meta "+filepath.Join(dir, n))
 			}
 			continue
 		}
@@ -599,6 +599,65 @@ func oracle(pre dirState, assigned []int, now int64, merging bool, post dirState
 	return ""
 }
 
+// staleSidecar: is some shard of dir served under repository ids that are not its own? For every shard whose
+// repositories are embedded in the .zoekt file (simple shards; compound shards built by index.Merge) the ids the reader
+// reports (embedded metadata overlaid with the .meta sidecar) must be the ids embedded in the file: every writer of a
+// sidecar (mergeMeta, SetTombstone, UnsetTombstone) keeps them, so a difference means the sidecar of ANOTHER shard got
+// attached to this one.
+func staleSidecar(dir string, embedded map[int]bool, scratch string) string {
+	ents, _ := os.ReadDir(dir)
+	for _, e := range ents {
+		c, k, ok := parseBase(e.Name())
+		if !ok || e.IsDir() || (c && !embedded[k]) {
+			continue
+		}
+		p := filepath.Join(dir, e.Name())
+		// the shard's own metadata: read a copy that has no sidecar next to it (the reader overlays <name>.meta by itself)
+		bs, err := os.ReadFile(p)
+		if err != nil {
+			continue
+		}
+		cp := filepath.Join(scratch, "own-metadata.zoekt")
+		must(os.WriteFile(cp, bs, 0o644))
+		own, _, err := index.ReadMetadataPath(cp)
+		os.Remove(cp)
+		if err != nil {
+			continue
+		}
+		seen, _, err := index.ReadMetadataPath(p)
+		if err != nil {
+			continue
+		}
+		a, b := []uint32{}, []uint32{}
+		for _, r := range own {
+			a = append(a, r.ID)
+		}
+		for _, r := range seen {
+			b = append(b, r.ID)
+		}
+		if fmt.Sprint(a) != fmt.Sprint(b) {
+			return fmt.Sprintf("%s holds repositories %v but is served as %v", e.Name(), a, b)
+		}
+	}
+	return ""
+}
+
+// newAnomalies: the anomalies of the post state that the pre state did not have already (a planted orphan sidecar that
+// cleanup had no reason to touch is not cleanup's doing)
+func newAnomalies(pre, post []string) []string {
+	had := map[string]bool{}
+	for _, a := range pre {
+		had[a] = true
+	}
+	var out []string
+	for _, a := range post {
+		if !had[a] {
+			out = append(out, strings.Fields(a)[0])
+		}
+	}
+	return out
+}
+
 // ---------- generator ----------
 
 // leftover: a temporary file a killed writer left next to shard number Of of Init.Index (Of = -1: unrelated name)
@@ -607,7 +666,18 @@ type leftover struct {
 	Kind int // see leftoverName
 }
 
+// orphan: a `.meta` sidecar without its shard (a crash between the two removes of a shard's files, or a builder that was
+// killed while deleting): base name of shard (Compound, Key), in the index directory or in the trash, naming repository
+// ID (name Name). It belongs to nobody; the point is what happens when cleanup moves a same-named shard next to it.
+type orphan struct {
+	Trash    bool
+	Compound bool
+	Key      int
+	ID, Name int
+}
+
 type scenario struct {
+	Orphans   []orphan   `json:",omitempty"`
 	Leftovers []leftover `json:",omitempty"`
 	Init     dirState
 	Merging  bool
@@ -778,6 +848,105 @@ func genEvent(r *gen.Rand, id, n int) event {
 	return event{Kind: "scan"}
 }
 
+// genStale: moves whose DESTINATION already holds files under the shard's base name. A source shard without a sidecar
+// (or with a zero-length one), in the index directory and about to be trashed, or in the trash and about to be restored;
+// at the destination a shard of the same base name but of another repository id (a repository deleted and re-created
+// under its old name) WITH a sidecar, or only an orphan sidecar. One or two such pairs, in either direction, simple
+// shards and compound shards (a compound source is deleted rather than moved, the destination is cleared all the same),
+// other shards around, and a second cleanup in which the moved repository changes sides again.
+func genStale(r *gen.Rand) scenario {
+	var sc scenario
+	sc.Shape = "stale"
+	sc.Merging = r.Bool()
+	now := int64(r.Range(100, 200)) * 86400
+	var first, second []int
+	used := map[int]bool{}
+	for pairs := r.Range(1, 2); pairs > 0; pairs-- {
+		name := r.Range(1, 5)
+		if used[name] {
+			continue
+		}
+		used[name] = true
+		a, b := name, name+20 // source repository, and the one that left files at the destination
+		if r.Chance(1, 4) {
+			a, b = b, a
+		}
+		src := file{Key: name*10 + r.Intn(2), Repos: []repo{{ID: a, Name: name}}}
+		if r.Chance(1, 4) {
+			src.Sidecar = 2
+		}
+		dst := file{Key: src.Key, Repos: []repo{{ID: b, Name: name, Date: int64(r.Range(0, 50))}}, Meta: true}
+		toTrash := r.Bool()
+		useOrphan := r.Chance(1, 3)
+		if toTrash {
+			src.Mtime, dst.Mtime = mtimeNear(r, now), now-int64(r.Range(1, 20))*3600
+			sc.Init.Index = append(sc.Init.Index, src)
+			if useOrphan {
+				sc.Orphans = append(sc.Orphans, orphan{Trash: true, Key: src.Key, ID: b, Name: name})
+			} else {
+				sc.Init.Trash = append(sc.Init.Trash, dst)
+			}
+			if r.Chance(1, 5) {
+				first = append(first, a)
+			} else {
+				second = append(second, a) // trashed now, wanted again at the next cleanup
+			}
+			if r.Bool() {
+				first = append(first, b)
+			}
+		} else {
+			src.Mtime, dst.Mtime = now-int64(r.Range(1, 20))*3600, mtimeNear(r, now)
+			sc.Init.Trash = append(sc.Init.Trash, src)
+			if useOrphan {
+				sc.Orphans = append(sc.Orphans, orphan{Key: src.Key, ID: b, Name: name})
+			} else {
+				sc.Init.Index = append(sc.Init.Index, dst)
+			}
+			if !r.Chance(1, 5) {
+				first = append(first, a) // restored now …
+			}
+			if r.Bool() {
+				second = append(second, a) // … and kept, or trashed again
+			}
+			if r.Bool() {
+				first = append(first, b)
+			}
+			if r.Bool() {
+				second = append(second, b)
+			}
+		}
+	}
+	if r.Chance(1, 3) { // a compound shard as the merger left it, about to lose a member; an orphan sidecar of its name in the trash
+		c := file{Compound: true, Key: 1, Mtime: mtimeNear(r, now), Sidecar: 1, Repos: []repo{{ID: 6, Name: 6}, {ID: 7, Name: 7}}}
+		sc.Init.Index = append(sc.Init.Index, c)
+		sc.Orphans = append(sc.Orphans, orphan{Trash: true, Compound: true, Key: 1, ID: 26, Name: 6})
+		first = append(first, 6)
+		second = append(second, 6, 7)
+	}
+	for id := 8; id <= 9; id++ { // bystanders
+		if r.Bool() {
+			sc.Init.Index = append(sc.Init.Index, file{Key: id * 10, Mtime: mtimeNear(r, now), Repos: []repo{{ID: id, Name: id}}, Meta: r.Bool()})
+		} else if r.Bool() {
+			sc.Init.Trash = append(sc.Init.Trash, file{Key: id * 10, Mtime: mtimeNear(r, now), Repos: []repo{{ID: id, Name: id}}})
+		}
+		if r.Bool() {
+			first = append(first, id)
+		}
+		if r.Bool() {
+			second = append(second, id)
+		}
+	}
+	gen.Shuffle(r, first)
+	gen.Shuffle(r, second)
+	sc.Steps = append(sc.Steps, step{Assigned: first, Now: now})
+	if r.Chance(1, 3) {
+		sc.Steps[0].Events = append(sc.Steps[0].Events, event{Kind: "scan"})
+	}
+	now += gen.Pick(r, []int64{60, 3600, 23 * 3600, 25 * 3600})
+	sc.Steps = append(sc.Steps, step{Assigned: second, Now: now})
+	return sc
+}
+
 // genLifecycle: the life of a compound shard inside one server process. A compound shard of 2-3 alive repositories
 // (plus simple shards and trash around it); a first cleanup with *everything* assigned, so that the shard is scanned and
 // left alone; then another actor touches one member x of the shard (re-index, external tombstone, rename by metadata
@@ -914,6 +1083,22 @@ func main() {
 			must(os.WriteFile(filepath.Join(root, leftoverName(base, lo.Kind)), []byte("{"), 0o600))
 			w.Count("leftover-temp-files", 1)
 		}
+		for _, o := range sc.Orphans {
+			dir := root
+			if o.Trash {
+				dir = filepath.Join(root, ".trash")
+			}
+			rp := &zoekt.Repository{ID: uint32(o.ID), Name: fmt.Sprintf("repo%d", o.Name), LatestCommitDate: tm(0)}
+			var b []byte
+			if o.Compound {
+				b, err = json.Marshal([]*zoekt.Repository{rp})
+			} else {
+				b, err = json.Marshal(rp)
+			}
+			must(err)
+			must(os.WriteFile(filepath.Join(dir, baseName(file{Compound: o.Compound, Key: o.Key}))+".meta", b, 0o644))
+			w.Count(fmt.Sprintf("orphan-sidecars-trash-%v-compound-%v", o.Trash, o.Compound), 1)
+		}
 		for i, st := range sc.Steps {
 			for _, a := range st.Add {
 				writeFile(root, a, scratch)
@@ -967,7 +1152,18 @@ func main() {
 			if rewrote && i > 0 {
 				w.Count("cleanup-after-external-change-in-same-process", 1)
 			}
-			pre, anomalies := readDir(root)
+			pre, preAnomalies := readDir(root)
+			if i == 0 {
+				if s := staleSidecar(root, embedded, scratch) + staleSidecar(filepath.Join(root, ".trash"), embedded, scratch); s != "" {
+					panic("materialisation: " + s)
+				}
+			}
+			var anomalies []string
+			for _, a := range preAnomalies {
+				if !(len(sc.Orphans) > 0 && strings.HasPrefix(a, "orphan-meta")) { // planted on purpose
+					anomalies = append(anomalies, a)
+				}
+			}
 			if len(anomalies) > 0 {
 				if i == 0 {
 					panic(fmt.Sprint("materialisation: ", anomalies))
@@ -993,8 +1189,18 @@ func main() {
 				fmt.Fprintln(os.Stderr, "driver died", ans)
 				os.Exit(4)
 			}
-			post, anomalies := readDir(root)
+			post, postAnomalies := readDir(root)
+			anomalies = newAnomalies(preAnomalies, postAnomalies)
 			verdict := oracle(pre, st.Assigned, st.Now, sc.Merging, post)
+			// first of all: no shard may come out of a cleanup wearing another shard's sidecar (this key is never a known
+			// finding, whatever else happened to the shard's repositories in the same cleanup)
+			staleWhy := staleSidecar(root, embedded, scratch)
+			if staleWhy == "" {
+				staleWhy = staleSidecar(filepath.Join(root, ".trash"), embedded, scratch)
+			}
+			if staleWhy != "" {
+				verdict = "shard-served-under-another-shards-sidecar"
+			}
 			if verdict == "" && len(anomalies) > 0 {
 				verdict = anomalies[0]
 			}
@@ -1040,8 +1246,19 @@ func main() {
 			}
 			if verdict != "" {
 				c.Go, c.Key = tag+": "+verdict, verdict
+				if staleWhy != "" {
+					c.Go += " (" + staleWhy + ")"
+				}
 			}
 			w.Emit(c)
+			if sc.Shape == "stale" {
+				for _, f := range pre.Index {
+					if g := find(pre.Trash, f.Compound, f.Key); g != nil {
+						w.Count("cleanups-with-one-base-name-in-index-and-trash", 1)
+						break
+					}
+				}
+			}
 			w.Count(fmt.Sprintf("compound-shards-%d", nComp), 1)
 			w.Count(fmt.Sprintf("trash-files-%d", min(len(pre.Trash), 4)), 1)
 			if showDir(pre) == showDir(post) {
@@ -1088,6 +1305,15 @@ func main() {
 			w.Count("lifecycle-scenarios", 1)
 		}
 		runScenario(sc, fmt.Sprintf("scenario %d", k), k%10 == 0, func(i int) json.RawMessage {
+			return gen.Detail(map[string]any{"scenario": sc, "step": i})
+		})
+	}
+	// moves onto an occupied destination: a stream of its own, so that the scenarios above stay what they were
+	rs := gen.NewRand(f.Seed*7919 + 32)
+	for k := 0; k < n/4; k++ {
+		sc := genStale(rs)
+		w.Count("stale-destination-scenarios", 1)
+		runScenario(sc, fmt.Sprintf("stale scenario %d", k), k%10 == 0, func(i int) json.RawMessage {
 			return gen.Detail(map[string]any{"scenario": sc, "step": i})
 		})
 	}
